@@ -398,7 +398,16 @@ pub fn eval_program<'a>(
                     .at(res.relation().span()),
             );
         }
-        rels.push(cast_relation(rel));
+        let rel = cast_relation(rel);
+        // A path template declares each of its variables once.
+        if let Some(p) = rel.uri.duplicate_variable() {
+            return Err(
+                Error::new(Kind::InvalidIdentifier, "path variable already exists")
+                    .with(&p.name)
+                    .at(res.relation().span()),
+            );
+        }
+        rels.push(rel);
     }
 
     let mut refs = IndexMap::new();
